@@ -92,11 +92,14 @@ def take_axis(ctx, shape, axis, lkind, k, indexing='label', form='list', mode=No
         src = [find(labels[pos], q) for q in qs]
         idx = list(qs) if form == 'list' else ctx.nparray(qs, kind=lkind)
     else:
-        if negative:          # NumPy's rule for positions: -n..-1 count from the end
+        if mode in ('clip', 'wrap'):   # NumPy's out-of-bounds modes: positions -2n..2n-1; clip sends negatives to 0
+            raw = [ctx.choice('p%d' % j, 4 * n) - 2 * n for j in range(k)]
+            kw['mode'] = mode
+        elif negative:          # NumPy's rule for positions: -n..-1 count from the end
             raw = [ctx.choice('p%d' % j, 2 * n) - n for j in range(k)]
         else:
             raw = [ctx.choice('p%d' % j, n) for j in range(k)]
-        src = [p % n for p in raw]
+        src = [min(max(p, 0), n - 1) for p in raw] if mode == 'clip' else [p % n for p in raw]
         idx = list(raw) if form == 'list' else ctx.nparray(raw, kind='i')
         kw['indexing'] = 'position'
     r = ctx.call(lambda: a.take_axis(idx, **kw))
@@ -154,8 +157,9 @@ def dropna(ctx, shape, axis, minvalid=None, lkind='i', inf=False, under=None):
     return ctx.done(same(ctx, r[1], _select_axis(ref, pos, keep), attrs=attrs), ctx.observe(r[1]))
 
 
-def fillna(ctx, shape, dkind='f', inplace=False, vkind='f', inf=False):
+def fillna(ctx, shape, dkind='f', inplace=False, vkind='f', inf=False, layout=None):
     nd = len(shape)
+    ctx.default_layout = layout     # value buffer column-major / a strided view: same answers
     a, ref, dims, labels, attrs = _build(ctx, shape, ['i', 'U', 'f', 'i'][:nd], dkind, nan=(dkind == 'f'), inf=inf)
     v = ctx.real('fill') if vkind == 'f' else ctx.int('fill')
     r = ctx.call(lambda: a.fillna(v, inplace=True) if inplace else a.fillna(v))
@@ -166,8 +170,9 @@ def fillna(ctx, shape, dkind='f', inplace=False, vkind='f', inf=False):
     return ctx.done(same(ctx, res, Ref(dims, labels, exp), attrs=attrs), ctx.observe(res), inplace=inplace)
 
 
-def setna(ctx, shape, how, dkind='f', inplace=False, inf=False):
+def setna(ctx, shape, how, dkind='f', inplace=False, inf=False, layout=None):
     nd = len(shape)
+    ctx.default_layout = layout
     a, ref, dims, labels, attrs = _build(ctx, shape, ['i', 'U', 'f', 'i'][:nd], dkind, nan=(dkind == 'f' and how != 'mask'), inf=inf)
     mk = (lambda n: ctx.real(n)) if dkind == 'f' else (lambda n: ctx.int(n))
     if how == 'scalar':
@@ -224,6 +229,15 @@ def templates():
     for shape, axis in (([3], 0), ([2, 3], 1), ([3, 2], 'name0'), ([2, 2, 3], -1)):
         for form in ('list', 'array'):
             add('take-pos-%s-%s-%s' % ('x'.join(map(str, shape)), axis, form), 'take_axis', cost=1, shape=shape, axis=axis, lkind='U', k=3, indexing='position', form=form)
+    for mode in ('clip', 'wrap'):
+        for shape, axis in (([3], 0), ([2, 3], 1), ([3, 2], 'name0')):
+            add('take-pos-%s-%s-%s' % (mode, 'x'.join(map(str, shape)), axis), 'take_axis', cost=1.5, shape=shape, axis=axis, lkind='f', k=2, indexing='position', mode=mode)
+    for layout in ('F', 'strided'):
+        for inplace in (False, True):
+            add('fillna-layout%s-%s' % (layout, inplace), 'fillna', cost=0.5, shape=[2, 3], inplace=inplace, layout=layout)
+            for how in ('scalar', 'mask', 'dimmask'):
+                for dk in 'fi':
+                    add('setna-layout%s-%s-%s-%s' % (layout, dk, how, inplace), 'setna', cost=1, shape=[2, 2], how=how, dkind=dk, inplace=inplace, layout=layout)
     for shape, axis in (([3], 0), ([2, 3], 1), ([3, 2], 'name0'), ([2, 3, 2], 1), ([1, 2], 0)):
         add('compress-%s-%s' % ('x'.join(map(str, shape)), axis), 'compress_axis', cost=0.5, shape=shape, axis=axis)
     for form in ('list', 'dimarray-same', 'dimarray-other', 'dimarray-default'):
